@@ -41,6 +41,8 @@ var tokenAlphabet = []string{
 	"00000000000000000042", "-000000000000000000000042", "08/10", "1/09",
 	// portions that are zero, not in lowest terms, above one, or 0/0
 	"0/0", "0/7", "4/6", "7/3", "0%",
+	// strings whose content ends in a backslash, or holds backslash sequences that are no escapes
+	"\"a\\\\\"", "\"C:\\dir\\%d\"",
 }
 
 var alphaN = strconv.Itoa(len(tokenAlphabet))
@@ -115,6 +117,7 @@ func textSpace(w *mc.Worker, tier string, body func(text string, edited bool)) {
 					toks = append(toks, pr.Toks[i+1:]...)
 					once(strings.Join(toks, " ")+"\n", true)
 					once(mixedLines(toks, i), true)
+					once(mixedLinesWith(toks, i, "\r"), true)
 				case 4, 5: // insert before / replace token i
 					i := in.Choose(len(pr.Toks) + 1)
 					a := tokenAlphabet[in.Choose(len(tokenAlphabet))]
@@ -130,6 +133,7 @@ func textSpace(w *mc.Worker, tier string, body func(text string, edited bool)) {
 					}
 					once(strings.Join(toks, " ")+"\n", true)
 					once(mixedLines(toks, i), true)
+					once(mixedLinesWith(toks, i, "\n\r"), true)
 				}
 			})
 		})
@@ -156,6 +160,55 @@ func textSpace(w *mc.Worker, tier string, body func(text string, edited bool)) {
 			})
 		})
 	})
+	// long flat constructs: the cost of parsing / analysing must stay (near) linear in their length.
+	// An analysis that doubles its work per operand does not return for the longest ones; the
+	// worker's watchdog (120 s without progress on a case that takes milliseconds) reports the text.
+	w.Stage("long-constructs", "left-deep chains of 8 / 16 / 32 / 64 operands of + and - (numbers, monetaries, variables first / last; in a sent amount, a cap, a metadata value), in-order sources, ordered destinations, allotments, declaration blocks and statement lists of 8 / 16 / 32 / 64 elements", func() {
+		w.Outer("long-constructs/shape", 0, func(o *mc.Explorer) {
+			n := []int{8, 16, 32, 64}[o.Choose(4)]
+			kind := o.Choose(10)
+			if !w.Mine(fmt.Sprint("long", n, kind)) {
+				return
+			}
+			w.Owned()
+			rep := func(first, item, sep string) string {
+				parts := []string{first}
+				for i := 1; i < n; i++ {
+					parts = append(parts, item)
+				}
+				return strings.Join(parts, sep)
+			}
+			text := ""
+			switch kind {
+			case 0:
+				text = "send " + rep("[ USD 1 ]", "[ USD 1 ]", " + ") + " ( source = @a destination = @b )\n"
+			case 1:
+				text = "vars { monetary $m number $n }\nsend " + rep("$m", "[ USD 2 ]", " - ") + " ( source = @a destination = @b )\nset_tx_meta ( \"k\" , " + rep("$n", "1", " + ") + " )\n"
+			case 2:
+				text = "vars { monetary $m }\nsend [ USD 9 ] ( source = max " + rep("[ USD 1 ]", "$m", " + ") + " from @a destination = @b )\n"
+			case 3:
+				text = "set_tx_meta ( \"k\" , " + rep("1", "2", " - ") + " + \"s\" )\n"
+			case 4:
+				text = "send [ USD 9 ] ( source = { " + rep("@a", "@b", " ") + " } destination = @x )\n"
+			case 5:
+				text = "send [ USD 9 ] ( source = @world destination = { " + rep("max [ USD 1 ] to @a", "max [ USD 1 ] kept", " ") + " remaining to @x } )\n"
+			case 6:
+				text = "send [ USD 9 ] ( source = @world destination = { " + rep("1/128 to @a", "1/128 to @b", " ") + " remaining kept } )\n"
+			case 7:
+				var ds, us []string
+				for i := 0; i < n; i++ {
+					ds = append(ds, fmt.Sprintf("account $v%d", i))
+					us = append(us, fmt.Sprintf("$v%d", i))
+				}
+				text = "vars { " + strings.Join(ds, " ") + " }\nsend [ USD 9 ] ( source = { " + strings.Join(us[:n/2], " ") + " } destination = @x )\n"
+			case 8:
+				text = rep("send [ USD 1 ] ( source = @a destination = @b )", "save [ USD 1 ] from @a", "\n") + "\n"
+			case 9:
+				text = "vars { number $n }\nset_tx_meta ( \"k\" , " + rep("1", "$n", " + ") + " )\n"
+			}
+			w.Inner(0, func(in *mc.Explorer) { once(text, true) })
+		})
+	})
 	w.Stage(fmt.Sprintf("soups-L%d", soupLen), fmt.Sprintf("all token sequences of length <= %d over the "+alphaN+"-entry alphabet, space separated", soupLen), func() {
 		w.Outer(fmt.Sprintf("soups-L%d/first", soupLen), 0, func(o *mc.Explorer) {
 			first := tokenAlphabet[o.Choose(len(tokenAlphabet))]
@@ -177,12 +230,15 @@ func textSpace(w *mc.Worker, tier string, body func(text string, edited bool)) {
 
 // mixedLines lays the tokens out one per line with LF, except that the gap before token k is a
 // CRLF (documents with mixed line endings: error positions and rendering must still hold).
-func mixedLines(toks []string, k int) string {
+func mixedLines(toks []string, k int) string { return mixedLinesWith(toks, k, "\r\n") }
+
+// mixedLinesWith: one token per line with LF, except that the gap before token k is `odd`.
+func mixedLinesWith(toks []string, k int, odd string) string {
 	var sb strings.Builder
 	for i, t := range toks {
 		if i > 0 {
 			if i == k || (k == 0 && i == 1) {
-				sb.WriteString("\r\n")
+				sb.WriteString(odd)
 			} else {
 				sb.WriteString("\n")
 			}
